@@ -268,7 +268,7 @@ type XMLChange struct {
 	Updates   Conf    // leaves to write (merge)
 	Deletes   []IPath // subtrees carrying operation delete / remove
 	DelOps    []string
-	DelPfx    []bool // the operation attribute carried the nc: prefix
+	DelPfx    []bool  // the operation attribute carried the nc: prefix
 	Replaces  []IPath // elements carrying operation replace (root or leaf-lists)
 	Anomalies []string
 }
